@@ -271,4 +271,78 @@ def buildUDPHeader (c : IPText) (dstHost : Text) (dstPort : Nat) (payload : Byte
   | none =>
     [0, 0, 0, u8 socks5.AddrDomain, u8 (dstHost.length % 256)] ++ dstHost ++ putBe16 dstPort ++ payload
 
+/-! ### `UDPRelay.readLoop` / `handlePacket`: datagrams in flight over the shared read buffer
+
+`readLoop` reads every datagram into one buffer `buf`, and starts one goroutine per datagram which
+parses the header and hands the payload to the destination's tunnel (`SendPacket`).  The reader and
+the started goroutines interleave freely; the model is a transition system whose schedule is an
+arbitrary list of steps.  What a goroutine holds is explicit (`Job`): its own copy of the datagram
+(the code: `dataCopy := make(...); copy(dataCopy, buf[:n]); go r.handlePacket(dataCopy)`), or —
+the hazard variant, used only for the witness theorem — a slice of `buf` that is copied when the
+goroutine first runs. -/
+
+/-- How `readLoop` hands a datagram to its goroutine. -/
+inductive Handoff where
+  | copyAtRead        -- the code: detached copy made by the reader before `go`
+  | aliasUntilRun     -- header parsed by the reader, payload still a slice of `buf` until the goroutine runs
+deriving DecidableEq, Repr
+
+/-- A started `handlePacket` goroutine that has not run yet. -/
+inductive Job where
+  | owned (data : Bytes)
+  | alias (host : Text) (port : Nat) (off len : Nat)
+deriving DecidableEq, Repr
+
+structure Relay where
+  buf : Bytes             -- the reader's buffer (content after the last `ReadFromUDP`)
+  queue : List Bytes      -- datagrams waiting in the socket, in arrival order
+  jobs : List Job         -- started goroutines, any of which may run next
+  sent : List UDest       -- `SendPacket` calls so far: tunnel destination and bytes
+deriving DecidableEq, Repr
+
+/-- `ReadFromUDP(buf)` of datagram `d`: the first `len d` bytes are overwritten, the rest stays. -/
+def overwrite (buf d : Bytes) : Bytes := d ++ buf.drop d.length
+
+/-- The `go …` statement of `readLoop` after `n` bytes were read. -/
+def spawn (c : IPText) (v : Handoff) (buf : Bytes) (n : Nat) : Option Job :=
+  match v with
+  | .copyAtRead => some (.owned (buf.take n))
+  | .aliasUntilRun =>
+    match parseUDPHeader c (buf.take n) with
+    | .ok d => some (.alias d.host d.port (n - d.payload.length) d.payload.length)
+    | .fail _ => none
+
+/-- `handlePacket` up to `session.tunnel.SendPacket(payload)`: what is sent, if anything. -/
+def runJob (c : IPText) (buf : Bytes) : Job → Option UDest
+  | .owned data =>
+    match parseUDPHeader c data with
+    | .ok d => some d
+    | .fail _ => none
+  | .alias host port off len => some ⟨host, port, (buf.drop off).take len⟩
+
+inductive RStep where
+  | read              -- one iteration of `readLoop` (no-op when the socket is empty)
+  | run (i : Nat)     -- the `i`-th started goroutine runs to its `SendPacket` (no-op when absent)
+deriving DecidableEq, Repr
+
+def Relay.step (c : IPText) (v : Handoff) (s : Relay) : RStep → Relay
+  | .read =>
+    match s.queue with
+    | [] => s
+    | d :: q =>
+      ⟨overwrite s.buf d, q, s.jobs ++ (spawn c v (overwrite s.buf d) d.length).toList, s.sent⟩
+  | .run i =>
+    match s.jobs[i]? with
+    | none => s
+    | some j => ⟨s.buf, s.queue, s.jobs.eraseIdx i, s.sent ++ (runJob c s.buf j).toList⟩
+
+def Relay.exec (c : IPText) (v : Handoff) (s : Relay) (sch : List RStep) : Relay :=
+  sch.foldl (Relay.step c v) s
+
+/-- The relay with datagrams `ds` sent to its socket and nothing read yet. -/
+def Relay.init (ds : List Bytes) : Relay := ⟨[], ds, [], []⟩
+
+/-- Nothing left to do. -/
+def Relay.quiescent (s : Relay) : Bool := s.queue.isEmpty && s.jobs.isEmpty
+
 end Tunnox.C20
